@@ -50,7 +50,7 @@ def run_rules(ctx, chk):
             if e.kind == 'dwrite':
                 chk.ob('C11.P4', 'write:copy-targets-record', e.field == 'ceb', e.site, 'data write through %s' % fmt(e.ef['args'][0])[:60])
         shapes.append(ok)
-    chk.floor('C11.P4', 'paths of write()', len(w.paths), 2)
+    chk.floor('C11.P4', 'paths of write()', len(w.paths), 1)
     # ---- P1..P3 exhaustive
     bad = {}
     covered = 0
